@@ -68,6 +68,13 @@ POS = {
     "where_conjunct": ("op", lambda Q, x: Q.from_(T()).select(T().k).where((T().k == 1) & x) if isinstance(x, Criterion) else None),
     "having_root": ("op", lambda Q, x: Q.from_(T()).select(T().k).groupby(T().k).having(x) if isinstance(x, Criterion) else None),
     "update_join_on": ("op", lambda Q, x: Q.update(T()).join(Table("u")).on((T().id == Table("u").id) & (x == 2)).set(T().k, 1)),
+    "update_from_where_cmp": ("op", lambda Q, x: Q.update(T()).from_(Table("u")).set(T().k, Table("u").k).where((T().id == Table("u").id) & (x == 1))),
+    "update_from_where_root": ("op", lambda Q, x: Q.update(T()).from_(Table("u")).set(T().k, Table("u").k).where(x) if isinstance(x, Criterion) else None),
+    "update_from_set_value": ("op", lambda Q, x: Q.update(T()).from_(Table("u")).set(T().k, x).where(T().id == Table("u").id)),
+    "update_join_where_cmp": ("op", lambda Q, x: Q.update(T()).join(Table("u")).on(T().id == Table("u").id).set(T().k, 1).where(x == 1)),
+    "update_join_on_root": ("op", lambda Q, x: Q.update(T()).join(Table("u")).on(x).set(T().k, 1) if isinstance(x, Criterion) else None),
+    "delete_where_cmp": ("op", lambda Q, x: Q.from_(T()).delete().where(x == 1)),
+    "insert_select_where": ("op", lambda Q, x: Q.into(Table("n")).from_(T()).select(T().k).where(x == 1)),
     "groupby_unrelated": ("op", lambda Q, x: Q.from_(T()).select(T().k).groupby(x)),
     "orderby_unrelated": ("op", lambda Q, x: Q.from_(T()).select(T().k).orderby(x)),
     "arith_l": ("op", lambda Q, x: Q.from_(T()).select((x + 1).as_("out"))),
@@ -173,8 +180,13 @@ def expand(chunk):
     if name == "@selectables":
         for d in fp.CTX:
             for kind in ("table", "subquery", "setop", "aliased_query"):
-                for pos in ("from", "join", "where_in", "select_item", "cmp_operand", "update_from", "update_join", "insert_select_from", "delete_in_from"):
+                for pos in ("from", "join", "where_in", "select_item", "cmp_operand", "update_from", "update_join", "insert_select_from", "delete_in_from",
+                            "func_arg_in_select", "arith_in_select", "case_then_in_select", "tuple_in_select", "func_arg_in_where", "orderby_operand",
+                            "setop_orderby_unselected"):
                     yield {"d": d, "sel": kind, "pos": pos}
+                    # the row source built through another dialect's class than the statement it is embedded in
+                    if kind in ("subquery", "setop"):
+                        yield {"d": d, "sel": kind, "pos": pos, "other_cls": True}
         return
     for d in fp.CTX:
         for pos in POS:
@@ -234,14 +246,18 @@ def run_selectable(case, res):
     lexd = "sqlite" if d == "generic" else d
     from pypika_tortoise import AliasedQuery
 
+    QI = Q
+    if case.get("other_cls"):
+        QI = fp.QCLS["generic"] if d == "mysql" else fp.QCLS["mysql"]
+
     def mk_sel(aliased):
         if kind == "table":
             return Table("s1", alias=ALIAS if aliased else None)
         if kind == "subquery":
-            q = Q.from_(Table("s1")).select("a")
+            q = QI.from_(Table("s1")).select("a")
             return q.as_(ALIAS) if aliased else q.as_("plain0")
         if kind == "setop":
-            q = Q.from_(Table("s1")).select("a").union(Q.from_(Table("s2")).select("a"))
+            q = QI.from_(Table("s1")).select("a").union(QI.from_(Table("s2")).select("a"))
             return q.as_(ALIAS) if aliased else q.as_("plain0")
         q = AliasedQuery(ALIAS if aliased else "plain0")
         return q
@@ -259,8 +275,25 @@ def run_selectable(case, res):
             return Q.into(T()).columns("k").from_(s).select("a")
         if pos == "delete_in_from":
             return Q.from_(T()).delete().where(T().k.isin(Q.from_(s).select("a")))
+        if pos == "setop_orderby_unselected":
+            # ORDER BY of a set operation by an aliased term that the select list does not define: the expression is written
+            if kind != "table":
+                return None
+            return Q.from_(T()).select(T().k).union(Q.from_(Table("u")).select(Table("u").k)).orderby(T().j.as_(ALIAS))
         if kind in ("table", "aliased_query"):
             return None
+        if pos == "func_arg_in_select":
+            return Q.from_(T()).select(FN.Coalesce(s, 0).as_("out"), T().k)
+        if pos == "arith_in_select":
+            return Q.from_(T()).select((T().k + s).as_("out"))
+        if pos == "case_then_in_select":
+            return Q.from_(T()).select(Case().when(T().k == 1, s).else_(0).as_("out"))
+        if pos == "tuple_in_select":
+            return Q.from_(T()).select(Tuple(s, 1).as_("out"))
+        if pos == "func_arg_in_where":
+            return Q.from_(T()).select(T().k).where(FN.Coalesce(s, 0) > 1)
+        if pos == "orderby_operand":
+            return Q.from_(T()).select(T().k).orderby(FN.Coalesce(s, 0))
         if pos == "where_in":
             return Q.from_(T()).select(T().k).where(T().k.isin(s))
         if pos == "select_item":
@@ -269,7 +302,10 @@ def run_selectable(case, res):
 
     try:
         a = stmt(mk_sel(True))
-    except Exception:
+    except Exception as e:
+        res.nontrivial = 1
+        res.violate("C12|%s|%s|build-raises|%s" % (kind, pos, type(e).__name__), "a valid statement of the menu was rejected while it was built",
+                    dialect=d, error=str(e)[:200])
         return
     if a is None:
         return
@@ -277,8 +313,13 @@ def run_selectable(case, res):
     for sql in render_both(a, d):
         res.transitions += 1
         if sql.startswith("!"):
+            res.violate("C12|%s|%s|render-raises|%s" % (kind, pos, sql[1:]), "rendering a valid statement of the menu raised", dialect=d)
             continue
-        toks = lex(sql, lexd)
+        try:
+            toks = lex(sql, lexd)
+        except LexError as e:
+            res.violate("C12|%s|%s|unlexable" % (kind, pos), "the statement does not lex in its dialect", dialect=d, sql=sql, error=str(e))
+            continue
         n = len(alias_positions(toks))
         # qualifiers of fields of the source also carry the alias: count only tokens not followed by '.'
         defs = [i for i in alias_positions(toks) if not (i + 1 < len(toks) and toks[i + 1].kind == "OP" and toks[i + 1].text == ".")]
